@@ -186,6 +186,9 @@ macro_rules! body_and_trailers {
                     use bytes::Buf;
                     let c = b.copy_to_bytes(b.remaining());
                     $o.borrow_mut().body.extend_from_slice(&c);
+                    // an application does something with a chunk before it asks for the next one: the transport may
+                    // move on in between (a reset may arrive while h3 still holds payload it has read ahead)
+                    crate::simnet::exec::yield_once().await;
                 }
                 Ok(None) => {
                     $o.borrow_mut().body_end = Some(Ok(()));
@@ -391,6 +394,9 @@ pub fn run_case(server: bool, seq: &[Sym], ending: Ending, style: Style, sched: 
     let h3_side = if server { Side::Server } else { Side::Client };
     let raw_side = h3_side.other();
     net.set_raw(raw_side);
+    // under random schedules the transport reports a reset the way quinn does: once, the read after it sees the end of the
+    // stream - an error that h3 swallows or defers is then gone for good
+    net.lock().reset_once = style == Style::Random;
     let o: Shared<Obs> = shared(Obs::default());
     let mut ex = Exec::new();
     let sp = ex.spawner.clone();
